@@ -77,7 +77,7 @@ def gen(rng, tier):
     ops = []
     merged_all = False
     for _ in range(rng.randint(2, 6)):
-        k = rng.choice(["merge", "merge", "merge", "remerge", "children_bp", "merge_all", "gc", "reopen", "restart"])
+        k = rng.choice(["merge", "merge", "merge", "remerge", "children_bp", "merge_all", "gc", "reopen", "restart", "interleave"])
         if k == "merge":
             crit = rng.choice([None, None, DEFAULT, ["seqid", "end_inc"], ["end_inc"], ["seqid", "any_inc", "strand"], ["seqid", "exact"],
                                ["seqid", "start_inc", "feature_type"], ["seqid", ["end_thr", rng.choice([0, 2, 3])], "strand", "feature_type"],
@@ -92,13 +92,21 @@ def gen(rng, tier):
                 crit2 = p["criteria"] if rng.random() < 0.5 else rng.choice([None, ["seqid", "end_inc"], ["end_inc"], ["seqid", "any_inc", "strand"],
                                                                                  ["seqid", ["end_thr", 3], "strand", "feature_type"], []])
                 ops.append({"op": "merge", "criteria": crit2, "reuse": p["save"], "save": "m%d" % len(ops)})
+        elif k == "interleave":
+            ms = []
+            for _ in range(rng.choice([2, 2, 3])):
+                ms.append({"criteria": rng.choice([None, None, ["seqid", "end_inc"], ["end_inc"], ["seqid", "any_inc", "strand"]]),
+                           "sel": {"order_by": rng.choice([["seqid", "strand", "featuretype", "start"], ["start"]]),
+                                   "featuretype": rng.choice([["exon", "CDS"], "exon"])}})
+            ops.append({"op": "interleave", "merges": ms, "schedule": [rng.randrange(3) for _ in range(rng.randint(2, 16))]})
         elif k == "children_bp":
             ops.append({"op": "children_bp", "ftype": rng.choice(["exon", "CDS"]), "merge": rng.random() < 0.6})
         elif k == "merge_all":
             merged_all = True
             ops.append({"op": "merge_all", "exclude": rng.random() < 0.4, "groups": rng.choice([None, None, [["exon"]], [["exon", "CDS"]], [["exon"], ["CDS"]]]),
                         "criteria": rng.choice([None, None, None, ["seqid", "end_inc", "strand"], ["seqid", "end_inc"], ["seqid", ["end_thr", 2], "strand", "feature_type"]]),
-                        "end": rng.choice(["none", "none", "crash", "restart"])})
+                        "end": rng.choice(["none", "none", "crash", "restart"]),
+                        "fault": rng.choice([None, None, None, {"frac": rng.random(), "mode": rng.choice(["error", "cancel", "crash"])}])})
         else:
             ops.append({"op": k})
     return {"feats": feats, "ops": ops}
@@ -258,6 +266,38 @@ def run(case):
                                       kind="union"))
                         break
                     probes["compared_with_independent_union"] = 1
+            elif k == "interleave":
+                r = call(node, {"op": "merge_interleave", "h": "h", "merges": op["merges"], "schedule": op["schedule"]})
+                if not r["ok"]:
+                    V.append(viol("C16.interleaved", "interleaved merge() generators raised %s: %s" % (r["exc"], r["msg"]),
+                                  kind="interleave_failed", exc=r["exc"]))
+                    break
+                seen_here = set()
+                for q, ins_, outs in zip(op["merges"], r["inputs"], r["outs"]):
+                    ins = [_item(f) for f in ins_]
+                    runs = model_merge(ins, q["criteria"])
+                    idx_of = dict((f["id"], i) for i, f in enumerate(ins))
+                    got_runs = [[idx_of.get(c, -1) for c in o["children"]] if o["children"] else [idx_of.get(o["id"], -1)] for o in outs]
+                    if got_runs != runs:
+                        V.append(viol("C16.interleaved", "a merge() consumed alternately with another one yields runs %r, alone it yields %r" % (
+                            got_runs, runs), kind="interleaved_runs"))
+                        break
+                    for o in outs:
+                        if o["children"]:
+                            nontrivial = True
+                            if o["id"] in issued or o["id"] in seen_here or o["id"] in idx_of:
+                                V.append(viol("C16.ids", "merged output id %r handed out twice on one handle (two merge() generators alive)" % o["id"],
+                                              kind="id_reused_interleaved"))
+                                break
+                            seen_here.add(o["id"])
+                    if V:
+                        break
+                issued |= seen_here
+                if len(set(x % len(op["merges"]) for x in op["schedule"])) > 1:
+                    probes["merge_generators_interleaved"] = 1
+                if file_digest(path) != d0:
+                    V.append(viol("C16.merge", "merge() changed the database file", kind="db_changed", op="merge"))
+                    break
             elif k == "children_bp":
                 d = call(node, {"op": "dump", "h": "h"})
                 if not d["ok"]:
@@ -294,7 +334,61 @@ def run(case):
                 kw = {"exclude_components": op["exclude"]}
                 if op["groups"] is not None:
                     kw["featuretypes_groups"] = op["groups"]
-                r = call(node, {"op": "merge_all", "h": "h", "kw": kw, "criteria": op.get("criteria")})
+                mreq = {"op": "merge_all", "h": "h", "kw": kw, "criteria": op.get("criteria")}
+                flt = op.get("fault") if op["exclude"] else None
+                if flt:
+                    # fault-free twin first (tells the number of seam points and the expected runs), in a scratch copy
+                    with World("c16t_") as w2:
+                        import shutil as _sh
+                        _sh.copy(path, w2.p("a.db"))
+                        t = w2.node()
+                        w2.call(t, {"op": "open", "h": "h", "db": "a.db"})
+                        tr = w2.call(t, dict(mreq))
+                        t.close()
+                    if tr["ok"] and tr["out"] and tr["points"] > 2:
+                        mreq["faults"] = [{"at": min(tr["points"] - 1, int(flt["frac"] * tr["points"])), "mode": flt["mode"]}]
+                        died = False
+                        try:
+                            fr = call(node, mreq)
+                        except NodeDied:
+                            died = True
+                            fr = {"ok": False, "injected": True}
+                        if not fr["ok"] and (died or fr.get("injected")):
+                            probes["fault_inside_merge_all"] = 1
+                            if not died:
+                                node.kill()
+                            # the handle is discarded; what a fresh process finds must consist of whole runs only:
+                            # per run either the merged feature is stored and all members are gone, or nothing happened
+                            obs = w.node()
+                            call(obs, {"op": "open", "h": "o", "db": "a.db"})
+                            post = call(obs, {"op": "dump", "h": "o"})
+                            obs.close()
+                            if not post["ok"]:
+                                V.append(viol("C16.merge_all", "database unreadable after a fault inside merge_all: %s" % post["msg"], kind="unreadable"))
+                                break
+                            pids = set(f["id"] for f in post["dump"]["features"])
+                            pre_ids = set(f["id"] for f in pre["features"])
+                            new_ids = pids - pre_ids
+                            applied = 0
+                            for o in tr["out"]:
+                                members = set(o["children"])
+                                gone = members - pids
+                                if gone and gone != members:
+                                    V.append(viol("C16.merge_all", "after a %s inside merge_all(exclude_components=True) a run is half applied: members %r, "
+                                                  "still stored %r" % (flt["mode"], sorted(members), sorted(members & pids)), kind="half_applied_run", mode=flt["mode"]))
+                                    break
+                                if gone:
+                                    applied += 1
+                            if not V and len(new_ids) != applied:
+                                V.append(viol("C16.merge_all", "after a %s inside merge_all(exclude_components=True): %d merged features stored but %d runs "
+                                              "had their members removed" % (flt["mode"], len(new_ids), applied), kind="half_applied_run", mode=flt["mode"]))
+                            stop = True
+                            continue
+                        r = fr
+                    else:
+                        r = call(node, mreq)
+                else:
+                    r = call(node, mreq)
                 if not r["ok"]:
                     V.append(viol("C16.merge_all", "merge_all(%r) raised %s: %s" % (kw, r["exc"], r["msg"]), kind="merge_all_failed", exc=r["exc"],
                                   exclude=op["exclude"]))
